@@ -430,6 +430,240 @@ func vOracle(out *vOut, r *rand.Rand, s vSnap, cfg *Config) {
 	}
 }
 
+// ---------------------------------------------------------------- directed layouts
+type vBlock struct {
+	lo  *big.Int
+	len int
+}
+
+// the maximal aligned blocks that tile [lo,hi], left to right (written from the definition of
+// "summarise a range", not from ipaddr)
+func vBlocks(fam int, lo, hi *big.Int) []vBlock {
+	w := vW(fam)
+	var out []vBlock
+	cur := new(big.Int).Set(lo)
+	for cur.Cmp(hi) <= 0 {
+		k := 0
+		for k < w {
+			sz := vPow2(k + 1)
+			if new(big.Int).Mod(cur, sz).Sign() != 0 || new(big.Int).Add(cur, new(big.Int).Sub(sz, big.NewInt(1))).Cmp(hi) > 0 {
+				break
+			}
+			k++
+		}
+		out = append(out, vBlock{new(big.Int).Set(cur), w - k})
+		cur = new(big.Int).Add(cur, vPow2(k))
+	}
+	return out
+}
+
+func vMkCidr(r *rand.Rand, fam int, addr *big.Int, l int) vAddr {
+	a := vAddr{Kind: 0, Fam: fam, Fam2: fam, A: addr.String(), Len: l}
+	if fam == 4 && r.Intn(5) == 0 {
+		a.Kind, a.Len = 1, l+96
+	}
+	vAddrText(r, &a)
+	return a
+}
+func vMkRange(r *rand.Rand, fam int, lo, hi *big.Int) vAddr {
+	a := vAddr{Kind: 2, Fam: fam, Fam2: fam, A: lo.String(), B: hi.String()}
+	vAddrText(r, &a)
+	return a
+}
+
+// vGenNotation: two address entries X and Y, in two pools (sometimes one), mixing notations.
+//   X (k%4):      CIDR block | the same block as a range | ragged range inside | ragged range across
+//   Y ((k/4)%6):  one summarised block of X as CIDR | the same as a range | a longer CIDR inside a
+//                 block of X | a range overlapping X's end | adjacent, disjoint | a CIDR containing X
+//   (k/24)%2: order of the pools, (k/48)%2: family, k >= 96: a BGP advertisement on top
+// Only "adjacent, disjoint" may be accepted.
+func vGenNotation(r *rand.Rand, k int) vSnap {
+	fam := 4
+	if (k/48)%2 == 1 {
+		fam = 6
+	}
+	w := vW(fam)
+	reg := r.Intn(5)
+	lb := w - 6 - r.Intn(4)
+	base := vCidrRange(fam, new(big.Int).Add(vRegion(fam, reg), big.NewInt(256)), lb) // aligned block, room on both sides
+	n := func(x int64) *big.Int { return big.NewInt(x) }
+	var X vAddr
+	xlo, xhi := base.lo, base.hi
+	switch k % 4 {
+	case 0:
+		X = vMkCidr(r, fam, new(big.Int).Add(base.lo, n(int64(r.Intn(8)))), lb)
+	case 1:
+		X = vMkRange(r, fam, xlo, xhi)
+	case 2:
+		xlo, xhi = new(big.Int).Add(base.lo, n(int64(1+r.Intn(3)))), new(big.Int).Sub(base.hi, n(int64(1+r.Intn(3))))
+		X = vMkRange(r, fam, xlo, xhi)
+	default:
+		xlo, xhi = new(big.Int).Add(base.lo, n(int64(5+r.Intn(20)))), new(big.Int).Add(base.hi, n(int64(3+r.Intn(40))))
+		X = vMkRange(r, fam, xlo, xhi)
+	}
+	blocks := vBlocks(fam, xlo, xhi)
+	b := blocks[r.Intn(len(blocks))]
+	brg := vCidrRange(fam, b.lo, b.len)
+	var Y vAddr
+	rel := (k / 4) % 6
+	switch rel {
+	case 0:
+		Y = vMkCidr(r, fam, b.lo, b.len)
+	case 1:
+		Y = vMkRange(r, fam, brg.lo, brg.hi)
+	case 2:
+		l := b.len + 1 + r.Intn(3)
+		if l > w {
+			l = w
+		}
+		Y = vMkCidr(r, fam, new(big.Int).Add(b.lo, new(big.Int).Rand(r, vPow2(w-b.len))), l)
+	case 3:
+		Y = vMkRange(r, fam, new(big.Int).Sub(xhi, n(int64(r.Intn(6)))), new(big.Int).Add(xhi, n(int64(1+r.Intn(20)))))
+	case 4:
+		lo := new(big.Int).Add(xhi, n(1))
+		if r.Intn(2) == 0 {
+			Y = vMkRange(r, fam, lo, new(big.Int).Add(lo, n(int64(r.Intn(30)))))
+		} else {
+			Y = vMkCidr(r, fam, lo, w)
+		}
+	default:
+		Y = vMkCidr(r, fam, base.lo, lb-1-r.Intn(2))
+	}
+	s := vSnap{Modelled: true, Directed: fmt.Sprintf("notation_x%d_y%d", k%4, rel), Nodes: []vNode{{Name: 0}}}
+	px, py := vPool{Name: 1, Addrs: []vAddr{X}}, vPool{Name: 3, Addrs: []vAddr{Y}}
+	switch {
+	case k%7 == 0: // both entries in one pool
+		px.Addrs = []vAddr{X, Y}
+		if (k/24)%2 == 1 {
+			px.Addrs = []vAddr{Y, X}
+		}
+		s.Pools = []vPool{px}
+	case (k/24)%2 == 1:
+		s.Pools = []vPool{py, px}
+	default:
+		s.Pools = []vPool{px, py}
+	}
+	if k >= 96 {
+		s.BGP = []vBGP{{Name: 0}}
+	}
+	return s
+}
+
+// vGenAggSweep: aggregationLength = k%34 (0..33), aggregationLengthV6 = k%130 (0..129) against an
+// IPv4 entry and an IPv6 entry (one dual-stack pool or two pools; CIDR, IPv4-mapped CIDR or the
+// block written as a range).  !tight: every entry's prefix is at most the aggregation length
+// (acceptable); tight: one family's entry is longer than the aggregation length (must be refused).
+func vGenAggSweep(r *rand.Rand, k int, tight bool) vSnap {
+	a4, a6 := k%34, k%130
+	clamp := func(x, w int) int {
+		if x < 0 {
+			return 0
+		}
+		if x > w {
+			return w
+		}
+		return x
+	}
+	d := []int{0, 1, 5, 0, 2}[(k/3)%5]
+	l4, l6 := clamp(a4-d, 32), clamp(a6-d, 128)
+	if k >= 130 { // further rounds: random distance below
+		l4, l6 = clamp(a4-r.Intn(12), 32), clamp(a6-r.Intn(40), 128)
+	}
+	kind := "loose"
+	if tight {
+		kind = "tight"
+		longer := func(a, w int) int {
+			c := []int{a + 1, w / 2, w - 4, w, a + 9, a + 1 + r.Intn(w)}[(k/2+r.Intn(2))%6]
+			if c <= a {
+				c = a + 1
+			}
+			return clamp(c, w)
+		}
+		if k%2 == 0 {
+			l6 = longer(a6, 128)
+		} else {
+			l4 = longer(a4, 32)
+		}
+	}
+	entry := func(fam, l int) vAddr {
+		base := new(big.Int).Add(vRegion(fam, 0), big.NewInt(int64(k%97)*4096))
+		c := vCidrRange(fam, base, l)
+		if l >= vW(fam)-10 && (k+fam)%4 == 1 {
+			return vMkRange(r, fam, c.lo, c.hi)
+		}
+		return vMkCidr(r, fam, new(big.Int).Add(c.lo, new(big.Int).Rand(r, vPow2(vW(fam)-l))), l)
+	}
+	s := vSnap{Modelled: true, Directed: "aggsweep_" + kind}
+	e4, e6 := entry(4, l4), entry(6, l6)
+	if k%2 == 0 {
+		s.Pools = []vPool{{Name: 0, Addrs: []vAddr{e4, e6}}}
+	} else {
+		s.Pools = []vPool{{Name: 2, Addrs: []vAddr{e6}}, {Name: 0, Addrs: []vAddr{e4}}}
+	}
+	adv := vBGP{Name: 0}
+	if a4 != 32 || k%3 == 0 {
+		adv.Agg4 = &a4
+	}
+	if a6 != 128 || k%3 == 0 {
+		adv.Agg6 = &a6
+	}
+	s.BGP = []vBGP{adv}
+	return s
+}
+
+// vRejectReason: for a directed snapshot (everything not under test is valid by construction)
+// the reason, from the property, why it may be refused; "" = there is none.
+func vRejectReason(s vSnap) string {
+	type ent struct {
+		pool int
+		w    vRange
+	}
+	var all []ent
+	for pi, p := range s.Pools {
+		for _, a := range p.Addrs {
+			w, ok := vWritten(a)
+			if !ok {
+				return "malformed address entry"
+			}
+			for _, e := range all {
+				if e.w.meets(w) {
+					return "address entries share addresses"
+				}
+			}
+			all = append(all, ent{pi, w})
+		}
+	}
+	for _, adv := range s.BGP {
+		for _, e := range all {
+			l, w := 32, 32
+			if adv.Agg4 != nil {
+				l = *adv.Agg4
+			}
+			if e.w.fam == 6 {
+				l, w = 128, 128
+				if adv.Agg6 != nil {
+					l = *adv.Agg6
+				}
+			}
+			if a4, a6 := adv.Agg4, adv.Agg6; (a4 != nil && *a4 > 32) || (a6 != nil && *a6 > 128) {
+				return "aggregation length beyond the address width"
+			}
+			_ = w
+			// the aggregate of the first address of the largest block of the entry must stay in the entry
+			best := vBlock{nil, 1000}
+			for _, b := range vBlocks(e.w.fam, e.w.lo, e.w.hi) {
+				if b.len < best.len {
+					best = b
+				}
+			}
+			if !vCidrRange(e.w.fam, best.lo, l).within(e.w) {
+				return "an aggregate leaves the address entry"
+			}
+		}
+	}
+	return ""
+}
+
 func vTexts(as []vAddr) []string {
 	var o []string
 	for _, a := range as {
@@ -579,6 +813,18 @@ func TestVerifCfg(t *testing.T) {
 		}
 	}
 	snaps = append(snaps, vCorpusCfg()...)
+	if n > 0 {
+		for k := 0; k < 96; k++ {
+			snaps = append(snaps, vGenNotation(r, k+96*r.Intn(2)))
+		}
+		nsweep := 130
+		if vThorough() {
+			nsweep = 130 * 6
+		}
+		for k := 0; k < nsweep; k++ {
+			snaps = append(snaps, vGenAggSweep(r, k, false), vGenAggSweep(r, k, true))
+		}
+	}
 	for i := 0; i < n; i++ {
 		o := vGenOpts{MinObj: 1 + i%3, MaxObj: 3 + i%3}
 		if i%8 == 7 {
@@ -608,7 +854,13 @@ func TestVerifCfg(t *testing.T) {
 				out.Stat("dualclash_lengths_differ_in_"+k+"_rejected", 1)
 			}
 		}
+		if s.Directed != "" {
+			out.Stat("directed_"+s.Directed, 1)
+		}
 		if err == nil {
+			if s.Directed != "" {
+				out.Stat("directed_accepted", 1)
+			}
 			out.Stat("accepted", 1)
 			vOracle(out, r, s, cfg)
 			res = cSome(vObsCoq(vProject(cfg)))
@@ -619,6 +871,14 @@ func TestVerifCfg(t *testing.T) {
 			}
 		} else {
 			out.Stat("rejected", 1)
+			if s.Directed != "" {
+				out.Stat("directed_rejected", 1)
+				if why := vRejectReason(s); why == "" {
+					out.Fail("c08-valid-config-rejected", fmt.Sprintf("config.For rejects (%v) a resource set whose pools are disjoint, whose ranges and CIDRs are well formed and whose aggregation lengths keep every aggregate inside the address entry it comes from", err), map[string]any{"snap": s})
+				} else {
+					out.Stat("directed_rejected: "+why, 1)
+				}
+			}
 			e := err.Error()
 			for _, k := range []string{"overlaps with already", "contains nodeIp", "invalid aggregation length", "invalid local preference", "duplicate definition", "invalid CIDR", "no prefixes"} {
 				if strings.Contains(e, k) {
@@ -709,6 +969,9 @@ func TestVerifCfg(t *testing.T) {
 		if fam == 6 && vIsMappedRange(base) {
 			base.SetInt64(12345)
 		}
+		var lastF, lastL int
+		var lastX *big.Int
+		again := false
 		mk := func() (*net.IPNet, vRange, int) {
 			l := w - r.Intn(12)
 			if r.Intn(6) == 0 {
@@ -727,10 +990,19 @@ func TestVerifCfg(t *testing.T) {
 					l = vW(f)
 				}
 			}
+			if again { // the previous block once more; the notation is drawn afresh below
+				f, x, l = lastF, lastX, lastL
+			}
+			lastF, lastX, lastL = f, x, l
 			rg := vCidrRange(f, x, l)
 			text := fmt.Sprintf("%s/%d", vText(f, rg.lo, false), l)
 			if f == 4 && r.Intn(5) == 0 {
 				text = fmt.Sprintf("::ffff:%s/%d", vText(4, rg.lo, false), l+96)
+			} else if r.Intn(3) == 0 && !(f == 6 && (vIsMappedRange(rg.lo) || vIsMappedRange(rg.hi))) {
+				// the same block written as a range: ipaddr.Summarize returns it with a
+				// different in-memory representation than net.ParseCIDR
+				text = vText(f, rg.lo, false) + "-" + vText(f, rg.hi, false)
+				out.Stat("overlap_net_from_range", 1)
 			}
 			ns, err := ParseCIDR(text)
 			if err != nil || len(ns) != 1 {
@@ -740,11 +1012,19 @@ func TestVerifCfg(t *testing.T) {
 		}
 		a, ra, _ := mk()
 		b, rb, _ := mk()
+		if r.Intn(4) == 0 { // the same block again, in whatever notation comes out
+			again = true
+			b, rb, _ = mk()
+			again = false
+		}
 		got := cidrsOverlap(a, b)
 		want := ra.meets(rb)
 		out.Stat("overlap_checks", 1)
 		if want {
 			out.Stat("overlap_true", 1)
+		}
+		if ra.fam == rb.fam && ra.lo.Cmp(rb.lo) == 0 && ra.hi.Cmp(rb.hi) == 0 {
+			out.Stat("overlap_equal_blocks", 1)
 		}
 		if got != want {
 			out.Fail("c08-cidrs-overlap-wrong", fmt.Sprintf("cidrsOverlap(%v, %v) = %v but the address sets intersect: %v", a, b, got, want), map[string]any{"a": a.String(), "b": b.String()})
